@@ -142,6 +142,24 @@ def find_sites(prog, fi):
                             s.loop = n
                             s.consumer = ("positional", "serial loop appends in task order", n)
                             sites.append(s)
+    # serial comprehensions: [worker(a) for a in tasks]  (the same computation as the loop above, in task order)
+    for n in walk_no_nested(fi.node):
+        if isinstance(n, ast.ListComp) and len(n.generators) == 1 and not n.generators[0].ifs \
+                and isinstance(n.generators[0].target, ast.Name) and isinstance(n.elt, ast.Call) \
+                and len(n.elt.args) == 1 and isinstance(n.elt.args[0], ast.Name) \
+                and n.elt.args[0].id == n.generators[0].target.id:
+            w = prog.resolve_callable(fi, n.elt.func)
+            w = [x for x in w if isinstance(x, FunctionInfo) and x.cls is None]
+            if w and _looks_like_worker(w):
+                s = PoolSite(fi, n.elt, "for", "serial-loop", "serial")
+                s.workers, s.worker_expr = w, n.elt.func
+                it = n.generators[0].iter
+                while isinstance(it, ast.Call) and call_name(it) in TRANSPARENT and it.args:
+                    it = it.args[0]
+                s.task = it
+                s.loop = n
+                s.consumer = ("positional", "serial comprehension builds the list in task order", n)
+                sites.append(s)
     return sites
 
 
